@@ -33,7 +33,8 @@ inductive Instr
   | JBE (l : String)
   | ANDQi (imm : Nat) (dst : Reg)
   | ORLi (imm : Nat) (dst : Reg)          -- 32-bit OR, zero-extends
-  | MOVD (src : Reg) (dst : XReg)         -- low 32 bits into lanes 0..3, rest cleared
+  | MOVD (src : Reg) (dst : XReg)         -- Go's `MOVD r64, Xn` assembles to the 64-bit move: lanes 0..7, rest cleared
+                                          -- (found by the per-instruction hardware validation, harness/cmd/asmstep)
   | MOVQrx (src : Reg) (dst : XReg)       -- 64 bits into lanes 0..7, rest cleared
   | PUNPCKLBW (src dst : XReg)
   | PSHUFL (imm : Nat) (src dst : XReg)
@@ -156,7 +157,7 @@ def step (s : St) : Instr → Option (St × Option String)
   | .JB l => some (s, if s.cf then some l else none)
   | .JBE l => some (s, if s.cf || s.zf then some l else none)
   | .ORLi imm dst => some (setR s dst ((s.r dst % W32) ||| (imm % W32)), none)
-  | .MOVD src dst => some (setX s dst (fun j => if j < 4 then UInt8.ofNat (s.r src / 256 ^ j % 256) else 0), none)
+  | .MOVD src dst => some (setX s dst (fun j => if j < 8 then UInt8.ofNat (s.r src / 256 ^ j % 256) else 0), none)
   | .MOVQrx src dst => some (setX s dst (fun j => if j < 8 then UInt8.ofNat (s.r src / 256 ^ j % 256) else 0), none)
   | .PUNPCKLBW src dst => some (setX s dst (fun j => if j % 2 = 0 then s.x dst (j / 2) else s.x src (j / 2)), none)
   | .PSHUFL imm src dst => some (setX s dst (fun j => s.x src (4 * (imm / 4 ^ (j / 4 % 4) % 4) + j % 4)), none)
